@@ -42,6 +42,9 @@ func init() {
 				New: "func (s *subscriptionUpdater) Heartbeat() {\n\ts.mu.Lock()\n\tdefer s.mu.Unlock()"},
 			{Name: "handleTriggerUpdate returns without joining its workers", File: resolveGo, Rule: "C12-R3", Key: "join",
 				Old: "\t\t})\n\t}\n\twg.Wait()\n}", New: "\t\t})\n\t}\n}"},
+			{Name: "unsubscribe on flush error runs with writeMu still held (defer-unlock refactor)", File: resolveGo, Rule: "C12-R4", Key: "acquire",
+				Old: "\tif err := sub.writer.Flush(); err != nil {\n\t\tsub.writeMu.Unlock()\n\t\t// If flush fails (e.g. client disconnected), remove the subscription.\n\t\t_ = r.UnsubscribeSubscription(sub.id)\n\t\treturn\n\t}",
+				New: "\tif err := sub.writer.Flush(); err != nil {\n\t\t// If flush fails (e.g. client disconnected), remove the subscription.\n\t\t_ = r.UnsubscribeSubscription(sub.id)\n\t\tsub.writeMu.Unlock()\n\t\treturn\n\t}"},
 			{Name: "done() called directly from handleTriggerComplete", File: resolveGo, Rule: "C12-R2", Key: "call-done",
 				Old: "\t\tif !s.removed.Load() {\n\t\t\ts.complete()\n\t\t}", New: "\t\tif !s.removed.Load() {\n\t\t\ts.complete()\n\t\t\ts.done()\n\t\t}"},
 		},
@@ -343,7 +346,12 @@ func runC12(r *fw.Run) {
 		in.Run(nil)
 		r.Expect("C12-R3", "worker spawns in handleTriggerUpdate", spawned, 1)
 	}
+
+	// ---- R4 lock order (shared with C13-R2) ------------------------------------------------------
+	checkSubsLockOrder(r, "C12-R4", la)
 }
+
+func boolStrUnused() {}
 
 func boolStr(b bool) string {
 	if b {
